@@ -286,6 +286,12 @@ class JumpToStageHandler(StabilizeHandler[JumpToStage]):
             def mutate_target(s: StageExecution, updates: dict[str, Any] = target_context_updates) -> None:
                 reset_stage_for_retry(s)
                 s.context.update(updates)
+                # A key the jump sets is the target's own value from now on:
+                # if the target had inherited that key from an ancestor, the
+                # next planning must not replace it with the ancestor's value.
+                inherited = s.context.get("_inherited_keys")
+                if inherited:
+                    s.context["_inherited_keys"] = [k for k in inherited if k not in updates]
 
             mutations.append((target_stage.id, mutate_target))
 
